@@ -98,7 +98,18 @@ def handle : List Sexp → String
         | _ => none
       match obsParsed with
       | none => "bad-request"
-      | some none => s!"{modelS} skip:dropped-with-warning"
+      | some none =>
+        -- the definition was dropped with a warning: fine for illegal notation, an empty alphabet and types without
+        -- alphabet annotations; for a legal FROM constraint of a known-multiplier type no annotation denotes the set
+        let chains := cs.map (·.2)
+        let legal := chains.all fun ch => (ch.first :: ch.rest.map (·.2)).all fun e =>
+          (elemChars e).all (baseMem ty) && (match e with | .range (some l) (some h) _ => decide (l ≤ h) | _ => true)
+        let probes := (chains.flatMap fun ch => (ch.first :: ch.rest.map (·.2)).flatMap elemChars).flatMap (fun c => [c - 1, c, c + 1]) |>.eraseDups
+        let specEmpty := probes.all fun c => !memSpec ty chains c
+        if !km || !legal || specEmpty || timeInFold then s!"{modelS} skip:dropped-with-warning"
+        else
+          let classes := classesOf ty cs
+          s!"{modelS} bad:{if classes.isEmpty then "unclassified" else "+".intercalate classes}:definition-dropped-although-the-FROM-constraint-is-legal"
       | some (some subs) =>
         if !km then (if subs.isEmpty then s!"{modelS} ok" else s!"{modelS} bad:unclassified:alphabet-annotation-on-a-non-known-multiplier-type")
         else
